@@ -64,6 +64,8 @@ type MethodM struct {
 	Description string
 	Query       *SchemaM
 	QueryEx     string
+	QueryFormat string // "" (default) | "htmlFormEncoded" | "noFormat"
+	QueryFmt1st bool   // the format is written before the example
 	Request     *SchemaM
 	ReqChild    bool // request body given by a child Body directive
 	ReqHeaders  *SchemaM
@@ -267,6 +269,8 @@ func (g *genState) method(path string) MethodM {
 		if r.Chance(1, 2) {
 			m.QueryEx = fmt.Sprintf("a=%d&b=x", r.Intn(10))
 		}
+		m.QueryFormat = []string{"", "", "htmlFormEncoded", "noFormat"}[r.Intn(4)]
+		m.QueryFmt1st = r.Bool()
 	}
 	if r.Chance(1, 2) {
 		m.Request = g.bodySchema()
@@ -566,6 +570,19 @@ func schemaParams(s *SchemaM) (params []string, body string) {
 	return nil, s.Body
 }
 
+// schemaParams spells the schema parameters of a body-carrying directive in the renderer's style: the
+// notation keyword or the type name may be written in quotes
+func (w *renderer) schemaParams(s *SchemaM) (params []string, body string) {
+	params, body = schemaParams(s)
+	if s.Mode == "array" {
+		return
+	}
+	for i := range params {
+		params[i] = w.q(params[i], false)
+	}
+	return
+}
+
 func (w *renderer) method(level int, m *MethodM, withPath bool) {
 	var params []string
 	if withPath {
@@ -580,6 +597,13 @@ func (w *renderer) method(level int, m *MethodM, withPath bool) {
 		if m.QueryEx != "" {
 			pp = []string{w.q(m.QueryEx, true)}
 		}
+		if m.QueryFormat != "" {
+			if m.QueryFmt1st {
+				pp = append([]string{w.q(m.QueryFormat, false)}, pp...)
+			} else {
+				pp = append(pp, w.q(m.QueryFormat, false))
+			}
+		}
 		w.line(level+1, "Query", pp, "")
 		w.body(level+1, m.Query.Body)
 	}
@@ -591,14 +615,14 @@ func (w *renderer) method(level int, m *MethodM, withPath bool) {
 				w.line(level+2, "Headers", nil, "")
 				w.body(level+2, m.ReqHeaders.Body)
 			}
-			pp, body := schemaParams(m.Request)
+			pp, body := w.schemaParams(m.Request)
 			w.line(level+2, "Body", pp, "")
 			if body != "" {
 				w.body(level+2, body)
 			}
 			w.close(level+1, op2)
 		} else {
-			pp, body := schemaParams(m.Request)
+			pp, body := w.schemaParams(m.Request)
 			w.line(level+1, "Request", pp, "")
 			if body != "" {
 				w.body(level+1, body)
@@ -618,14 +642,14 @@ func (w *renderer) method(level int, m *MethodM, withPath bool) {
 				w.line(level+2, "Headers", nil, "")
 				w.body(level+2, resp.Headers.Body)
 			}
-			pp, body := schemaParams(resp.Body)
+			pp, body := w.schemaParams(resp.Body)
 			w.line(level+2, "Body", pp, "")
 			if body != "" {
 				w.body(level+2, body)
 			}
 			w.close(level+1, op2)
 		} else {
-			pp, body := schemaParams(resp.Body)
+			pp, body := w.schemaParams(resp.Body)
 			w.line(level+1, resp.Code, pp, resp.Annotation)
 			if body != "" {
 				w.body(level+1, body)
@@ -829,7 +853,11 @@ func (m *ApiModel) Expected(tagNameOf func(title string) string) *OVal {
 			if mm.QueryEx != "" {
 				q.set("example", oStr(mm.QueryEx))
 			}
-			q.set("format", oStr("htmlFormEncoded"))
+			if mm.QueryFormat != "" {
+				q.set("format", oStr(mm.QueryFormat))
+			} else {
+				q.set("format", oStr("htmlFormEncoded"))
+			}
 			q.set("schema", schemaSkel(mm.Query))
 			o.set("query", q)
 		}
